@@ -135,6 +135,7 @@ if utils.SAGE_AVAILABLE:
 ERROR_THRESHOLD = 1e-8
 BOUNDARY_THRESHOLD = 1e-5
 COMPLEX_THRESHOLD = 1e-3
+CLUSTER_THRESHOLD = 1e-6
 
 CHECK_LIGHT_CONE = False
 
@@ -1783,6 +1784,8 @@ class Isometry(projective.Transformation, HyperbolicObject):
         # find fixpoints in projective space, and their eigenvalues and minkowski norms
 
         eigvals, eigvecs = utils.eig(self.proj_data.swapaxes(-1, -2))
+        eigvecs = _timelike_eigenvectors(self.proj_data.swapaxes(-1, -2),
+                                         eigvals, eigvecs)
         norms = utils.normsq(eigvecs.swapaxes(-1, -2),  self.minkowski)
 
         # 1 for eigenvectors which actually lie in H^n, 0 for outside vectors
@@ -2125,6 +2128,50 @@ def _equidistant_point(points):
     coeffs = utils.invert(gram) @ half_sq_norms
 
     return np.squeeze(base + coeffs.swapaxes(-1, -2) @ diffs, axis=-2)
+
+def _timelike_eigenvectors(matrices, eigvals, eigvecs):
+    """Fix up the eigenvectors of an array of isometries so that every
+    eigenspace which contains a timelike vector is represented by one.
+
+    If an eigenvalue is repeated, its eigenspace can contain timelike
+    vectors even though none of the basis vectors returned by the
+    eigenvalue routine is timelike (for instance, the fixed geodesic
+    of a rotation of H^3 can be spanned by two spacelike vectors, or
+    by a complex conjugate pair). In that case the first basis vector
+    is replaced by the Minkowski-orthogonal projection of (1, 0, ...,
+    0) to the eigenspace, which is timelike whenever any vector in the
+    eigenspace is.
+
+    """
+    if not utils.types.is_linalg_type(eigvecs):
+        return eigvecs
+
+    dim = eigvals.shape[-1]
+    form = minkowski(dim)
+    origin = form[0] * -1
+
+    fixed_vecs = np.array(eigvecs)
+    for ind in np.ndindex(eigvals.shape[:-1]):
+        vals, vecs = eigvals[ind], eigvecs[ind]
+        visited = np.zeros(dim, dtype=bool)
+        for i in range(dim):
+            cluster = np.abs(vals - vals[i]) < CLUSTER_THRESHOLD
+            if visited[i] or np.count_nonzero(cluster) < 2:
+                continue
+            visited |= cluster
+
+            # real vectors spanning the (complexified) eigenspace
+            basis = np.concatenate([np.real(vecs[:, cluster]),
+                                    np.imag(vecs[:, cluster])], axis=-1)
+            gram = basis.T @ form @ basis
+            vec = basis @ (np.linalg.pinv(gram) @ (basis.T @ form @ origin))
+
+            residual = matrices[ind] @ vec - np.real(vals[i]) * vec
+            if (vec @ form @ vec < -ERROR_THRESHOLD * (vec @ vec) and
+                np.abs(residual).max() < CLUSTER_THRESHOLD * np.abs(vec).max()):
+                fixed_vecs[ind][:, i] = vec
+
+    return fixed_vecs
 
 def timelike_to(v, force_oriented=False):
     """Find an isometry taking the origin of the Poincare/Klein models to
